@@ -54,3 +54,13 @@ def extra_c07(tier, seed, src):
 
 
 EXTRAS = {'C07': extra_c07}
+
+CHSET = {'cls': 'ChannelSet', 'fields': {'_eflr_item_list': 'seqlist[ref]', 'set_name': 'str?'}}
+CONTRACTS['ChannelItem.__init__[verified]'] = dict(
+    target='ChannelItem.__init__', props=['C20', 'C08'], globals=GC, self_fields={},
+    params={'name': 'str', 'parent': CHSET, 'dataset_name': 'str?', 'cast_dtype': 'oneof[none,opq:dtype]', 'kwargs': {}}, returns='none',
+    ref_fields=REF_FIELDS, requires=['not in_seq(self, parent._eflr_item_list)'],
+    may_raise=['ValueError', 'AnyException'],
+    ensures=[('registered', f'{ITEMS} == old({ITEMS}) + [self]'), ('dataset-name-kept', 'self._dataset_name == dataset_name'),
+             ('cast-dtype-kept', 'self._cast_dtype is cast_dtype')],
+    exc_ensures=[('rejected-channel-leaves-the-set-unchanged', UNCHANGED)])
